@@ -229,7 +229,9 @@ CLAIMS.update({
          'empty(), conversion back to std::string and comparisons with plain strings (both operand orders) agree with the contents; '
          'equal strings hash alike; interning is idempotent.',
          'std::string is an abstract value (identity = content, id order = operator<); unordered_map is a functional map tracking '
-         'two keys; std::hash<size_t> is the identity. environment::intern (a forwarding call) is not extracted.', '5 C42'),
+         'two keys; std::hash<size_t> is the identity. environment::intern (a forwarding call) is not extracted. A bounded sibling '
+         '(intern_rt: concrete strings of <= 3 bytes, every byte value) re-checks every operator against the byte-wise reference so '
+         'that a comparison operator rewritten by hand stays decided; its obligations are counted as bounded.', '5 C42'),
 })
 
 CLAIMS.update({
